@@ -5,14 +5,13 @@ import itertools
 
 from hypothesis import strategies as st
 
-from fibertree import Tensor
 from fibertree.model import Format
 
 from .. import build, gen, model, observe
 from ..core import Part, Violation
 
 ID = "C18"
-RULE = ("Tensors of depth 1-3 (shapes 1-5 per rank, rank ids drawn from a pool in any order, leaf default 0 or 3, "
+RULE = ("Tensors of depth 1-3 (shapes 1-5 per rank, 1-4 at depth 3, rank ids drawn from a pool in any order, leaf default 0 or 3, "
         "explicit-default leaves and empty sub-fibers generated on purpose) are built through a drawn vf/build.py "
         "route (getPayloadRef / Fiber constructor + fromFiber / fromUncompressed + mutation / YAML / deepcopy), "
         "optionally with the tensor-side rank format attribute set to U, and paired with a drawn specification: each "
